@@ -17,6 +17,8 @@ pub enum NEv {
 pub struct Faults {
     /// every executable mmap fails with ENOMEM
     pub enomem_all: bool,
+    /// the first `enomem_first` executable mmaps of the armed window fail with ENOMEM (transient)
+    pub enomem_first: u64,
     /// the next mprotect fails with EACCES
     pub mprotect_fail_next: bool,
     /// every mprotect touching [lo, hi) fails with EACCES (a page that can never be made writable)
@@ -28,7 +30,7 @@ pub struct Faults {
 thread_local! {
     static ARMED: Cell<bool> = const { Cell::new(false) };
     static LEDGER: RefCell<Vec<NEv>> = const { RefCell::new(Vec::new()) };
-    static FAULTS: RefCell<Faults> = const { RefCell::new(Faults { enomem_all: false, mprotect_fail_next: false, mprotect_deny: None, fired_enomem: 0, fired_mprotect: 0 }) };
+    static FAULTS: RefCell<Faults> = const { RefCell::new(Faults { enomem_all: false, enomem_first: 0, mprotect_fail_next: false, mprotect_deny: None, fired_enomem: 0, fired_mprotect: 0 }) };
     static COUNTS: Cell<(u64, u64, u64, u64)> = const { Cell::new((0, 0, 0, 0)) };
 }
 
@@ -111,6 +113,10 @@ pub unsafe extern "C" fn mmap(addr: *mut libc::c_void, len: libc::size_t, prot: 
         let inject = FAULTS.with(|f| {
             let mut f = f.borrow_mut();
             if f.enomem_all {
+                f.fired_enomem += 1;
+                true
+            } else if f.enomem_first > 0 {
+                f.enomem_first -= 1;
                 f.fired_enomem += 1;
                 true
             } else {
